@@ -49,6 +49,15 @@ def backoff(P, fc):
     return min(P["trk_backoff_base"] << min(fc - 1, P["trk_backoff_shift_cap"]), P["trk_min_min_interval"])
 
 
+def atn(P, t):
+    """TrackerState::activity_time_next"""
+    if t["fc"] != 0:
+        return t["ftl"] + (t["mi"] if t["mi"] > P["trk_min_min_interval"] else backoff(P, t["fc"]))
+    if t["sc"] == 0:
+        return 0
+    return t["stl"] + max(t["ni"], t["mi"], P["trk_min_normal_interval"])
+
+
 def oracle(case, line, P):
     """Returns list of (klass or None, text). klass None = unclassified violation."""
     if line.startswith("CRASH") or "ERR:" in line or "BAD" in line or line == "MISSING":
@@ -144,14 +153,21 @@ def oracle(case, line, P):
                 elif t["sc"] > 0:
                     need = t["stl"] + t["mi"]
                     if nows < need:
-                        kl = "min-interval-above-interval" if t["mi"] > min(t["ni"], max(t["mi"], P["trk_promisc_floor"])) or t["mi"] > t["ni"] else None
+                        kl = "min-interval-above-interval" if t["mi"] > t["ni"] else None
                         bad.append((kl, "successful tracker re-announced %d s before its min interval at %s" % (need - nows, where)))
-                # tier order (normal mode only)
+                # tier order (normal mode only). Theorem tier_order: an enabled never-failed tracker u of an
+                # earlier tier is either in flight, or the first requestable tracker has failed and the
+                # chosen tracker's next-activity time is not later than u's (the two listed findings).
                 if not (pre_fl & (F_PROMISC | F_REQUESTING)):
                     g = group_of[tid]
                     for u in st["trs"]:
                         if group_of[u["id"]] < g and u["en"] and u["fc"] == 0:
-                            kl = "tier-skipped-while-in-flight" if (pre_trs[u["id"]]["busy"] or u["id"] in inflight) else "tier-skipped-not-due"
+                            if u["id"] in inflight:
+                                kl = "tier-skipped-while-in-flight"
+                            elif atn(P, t) <= atn(P, u) and any(p["en"] and p["fc"] > 0 and p["id"] not in inflight for p in st["trs"]):
+                                kl = "tier-skipped-not-due"
+                            else:
+                                kl = None
                             bad.append((kl, "tier %d contacted while tier %d has a usable tracker without failure (tracker %d) at %s" % (g, group_of[u["id"]], u["id"], where)))
                             break
             inflight[tid] = ev
